@@ -477,3 +477,25 @@ def RtCtx.safeCheck (c : RtCtx) : Bool :=
   guardedB c c.startTree
 
 end Nmfu
+
+namespace Nmfu
+
+/-- No expression of the tree reads a buffer byte by index. -/
+def treeIdxFree : CTree → Bool
+  | .emit (.set _ e) k => e.idxFree && treeIdxFree k
+  | .emit (.appendC _ e) k => e.idxFree && treeIdxFree k
+  | .emit _ k => treeIdxFree k
+  | .ask (.cond e) kt kf => e.idxFree && treeIdxFree kt && treeIdxFree kf
+  | .ask _ kt kf => treeIdxFree kt && treeIdxFree kf
+  | .leaf _ => true
+
+/-- Per-machine check used by C12: no call tree and no start action indexes into a buffer (an
+    index at or beyond the current length reads bytes whose value depends on where the buffer
+    lives and what was stored there before; below the length it does not, but the check does not
+    try to tell). -/
+def RtCtx.idxFreeCheck (c : RtCtx) : Bool :=
+  ((List.range c.M.states.size).all fun s =>
+    (List.range nSym).all fun x => treeIdxFree (c.M.call c.semOpts s x)) &&
+  treeIdxFree c.startTree
+
+end Nmfu
